@@ -66,6 +66,18 @@ CHECKS = {
                  "monotone clock (outside right after start; inside iff less than 5 s since the last tracking reply; only a tracking reply records the instant); the configured reference id: a Kani/CBMC harness proves refid_to_u32 is the big-endian packing of its bytes for every ASCII string of <= 4 bytes and an error for 5 (unwind 6). Socket I/O is environment.", NOTE_D + " Kani 0.68 (CBMC 6.11, cadical) on the compiled crate with the tracing shims for the refid harness.", TECH_M + "; Kani bounded model checking for refid_to_u32"),
     'C14': ('M', "All inputs of the stated domain: every panic/overflow site reachable from now() (asserts of the overflow-checked MIR, nix's range panics) is proved unreachable, and the error "
                  "kinds are proved to be returned exactly under their documented conditions.", NOTE_NOW, TECH_M),
+    'C15': ('M+C', "Bounded protocol-level check. Step relations extracted from the MIR by symbolic execution: one iteration of the receive loop of thread_manager::run and what follows it (broadcast_abort "
+                   "executed from its MIR over the abstract key set, joins, return), one iteration of the poller loop and of the writer loop over a symbolic mailbox outcome, <Context as Drop>::drop for both "
+                   "values of panicking(), the entry functions and thread closures (which Context they pass on; where the Context may flow). Every table entry is a solver query. Composition (z3, bounded "
+                   "model checking): three processes over FIFO queues, rounds of one step per thread in arbitrary order, one injected worker fault (panic or return, at start-up or any iteration) plus the "
+                   "deaths the code itself produces; for every schedule of K = 6 (quick) / 11 (thorough) rounds, main has returned R = 3 / 6 rounds after the first death (queues <= 4 / 6). A counterexample "
+                   "is replayed by running the real thread_manager::run in the sandbox with the fault injected through cfg-gated fault points under a 10 s watchdog; three (six) such native runs are "
+                   "made on every check as well.",
+            "Trusted: MIR pretty-printer, translator, z3. Assumed (environment): std::sync::mpsc is FIFO, send succeeds while the receiver exists, recv blocks until a message arrives; thread::spawn/join; "
+            "fair scheduling (rounds); unwinding runs drop glue (panic = unwind); the HashMap of the channel web is an abstract key set and DispatchBox::send delivers to the mailbox registered under the key; "
+            "chronyd query / PHC read / clock read / ShmUpdater calls are environment. Wall-clock: a round costs at most one chrony query time-out since receives wake on a message; measured natively. "
+            "Outside: a worker blocked forever inside a system call, signals, the supervisor, several simultaneous faults, schedules longer than K rounds.",
+            TECH_M + "; bounded model checking of the composed step relations (z3); native fault-injection replay of the real thread_manager::run"),
     'C16': ('M', "Every header (all 2^128 values of the 16 header bytes, as the four typed fields they are in bijection with) x every read length -1..16 x every success/failure of open, read and mmap: "
                  "ShmReader::new succeeds exactly for (magic, version != 0, generation != 0, declared size >= 72, calls ok) and otherwise returns the documented error kind with the failing call's errno "
                  "and origin; no panic, no read of uninitialised header bytes, descriptor closed and mapping released on every path; both clients' error conversions; ShmWriter::wipe's file image "
@@ -94,7 +106,6 @@ NOT_YET = {
 }
 
 NA = {
-    'C15': "OS threads, std::sync::mpsc, unwinding and process exit with a wall-clock deadline: no solver-based encoding of the real code is within reach (DESIGN.md section 7)",
 }
 
 ALL = ['C%02d' % i for i in range(1, 20)]
